@@ -644,6 +644,10 @@ def _fit_windows(
     width: sc.Variable,
     fit_parameters: FitParameters,
 ) -> sc.Variable:
+    # Windows are computed in double precision whatever the element types of
+    # the estimates, the width and the coordinate (float32, integers).
+    center = center.to(dtype='float64', copy=False)
+    width = width.to(dtype='float64', copy=False)
     windows = sc.empty(sizes={data.dim: len(center), 'range': 2}, unit=center.unit)
     windows['range', 0] = center - width / 2
     windows['range', 1] = np.nextafter(center.values + width.value / 2, np.inf)
@@ -657,8 +661,8 @@ def _fit_windows(
 
 
 def _clip_to_data_range(data: sc.DataArray, windows: sc.Variable) -> sc.Variable:
-    lo = data.coords[data.dim].min()
-    hi = data.coords[data.dim].max()
+    lo = data.coords[data.dim].min().to(dtype=windows.dtype, copy=False)
+    hi = data.coords[data.dim].max().to(dtype=windows.dtype, copy=False)
     windows = sc.where(windows < lo, lo, windows)
     windows = sc.where(windows > hi, hi, windows)
     return windows
